@@ -12,7 +12,8 @@
     Config outside these three functions (proxies writing to _modifications,
     reloads) are covered by the snapshot / object-identity test of the harness. *)
 From InvokeVerif Require Import Common.Tree Common.StrUtil Model.MergeModel Model.ConfigModel
-     Spec.C03Spec Proofs.C03_order Proofs.C11_clone Model.HeapMerge Proofs.C11_heap Proofs.C11_heap_abs.
+     Spec.C03Spec Proofs.C03_merge Proofs.C03_order Proofs.C11_clone Proofs.C11_clone_into
+     Model.HeapMerge Proofs.C11_heap Proofs.C11_heap_abs.
 
 (** [copy_dict] (the recursive copy used for every level) returns an equal
     dict: same keys, same order, same values, at every depth. *)
@@ -21,9 +22,17 @@ Theorem C11_copy_dict_identity : forall kids,
 Proof. exact copy_dict_identity. Qed.
 
 (** Guard [clone_guard c]: every level of [c] is a well-formed dict, the cache is
-    the merge of the levels (both hold in every state the correspondence has
-    ever observed; the sweep below checks them on all short histories), and the
-    system/user files have been looked for.  MISSING for the full statement: the
+    the merge of the levels, and the system/user files have been looked for.
+    "The cache is the merge of the levels" does NOT hold in every reachable
+    state: an untracked edit of the cache -- through the raw dict handed out by
+    get()/setdefault()/pop()/items() (F-C06h), or an in-place edit of a mutable
+    leaf (list.append, set.add, bytearray.extend) -- and levels left unmerged by
+    merge=False loads or re-pointings make the view differ from the merge of
+    the levels; clone() copies the LEVELS and re-merges, so the clone then does
+    not read like its original (the edit / the stale view is not carried over).
+    Such states are outside the guard; the generator re-merges before cloning
+    whenever the history before the clone contains such a call
+    (harness/props/c11.py, gen_one), and F-C06h is registered for C11 as well.  MISSING for the full statement: the
     last conjunct -- a Config created with lazy=True whose base files were never
     loaded gets them loaded by clone() (F-C11c, refuted below) -- and cloning
     into a subclass whose global defaults disagree with the original's (F-C11b,
@@ -57,6 +66,38 @@ Proof.
   exists (blank (Node []) (Node []) (Some "sys") (Some "usr") None None "INVOKE_").
   split; [vm_compute; reflexivity|]. vm_compute. discriminate.
 Qed.
+
+(** Cloning INTO A SUBCLASS, the part that holds: if the subclass'
+    [global_defaults()] ([g]) agree with the original's defaults at every path
+    both define (same leaf value, or a section in both; [g] may define more),
+    then whenever the clone is made it reads exactly like the original at every
+    setting the original shows -- through all ten levels, the deletions
+    included.  (The clone may show more: the subclass' own extra defaults.  It
+    may also fail to be made, with AmbiguousMergeError, when an extra default of
+    the subclass clashes in kind with a higher level of the original; that is
+    the "type-consistent" quantifier.)  What is MISSING for the full statement is
+    exactly the disagreement case, refuted next (F-C11b). *)
+Theorem C11_clone_into_partial : forall fs c g cl,
+  clone_guard c = true -> wf_node g = true -> agrees_with g (c_defaults c) ->
+  clone fs c (Some g) = (cl, ONone) ->
+  forall p, shape_at p (Node (c_cache c)) <> None ->
+    shape_at p (Node (c_cache cl)) = shape_at p (Node (c_cache c)).
+Proof. exact clone_into_partial. Qed.
+
+(** Non-vacuity: a subclass with one agreeing and one extra default; the clone is
+    made, reads the original's settings and the extra one. *)
+Example C11_example_clone_into :
+  let c := set_cache (set_user (set_system
+            (blank (Node [("a", Leaf (VInt 1)); ("s", Node [("x", Leaf (VInt 2))])]) (Node [])
+                   (Some "sys") (Some "usr") None None "INVOKE_")
+            (Node []) FTrue (Some "py")) (Node []) FTrue (Some "py"))
+            [("a", Leaf (VInt 1)); ("s", Node [("x", Leaf (VInt 2))])] in
+  let g := Node [("a", Leaf (VInt 1)); ("s", Node [("y", Leaf (VInt 3))]); ("new", Leaf (VInt 9))] in
+  clone_guard c = true /\ wf_node g = true /\
+  snd (clone [] c (Some g)) = ONone /\
+  c_cache (fst (clone [] c (Some g))) =
+    [("a", Leaf (VInt 1)); ("s", Node [("x", Leaf (VInt 2)); ("y", Leaf (VInt 3))]); ("new", Leaf (VInt 9))].
+Proof. vm_compute. repeat split; reflexivity. Qed.
 
 (** F-C11b: cloning into a subclass lets the subclass' global defaults override
     a default the original defines. *)
